@@ -91,7 +91,7 @@ var pipeRealStub = map[string]string{
 	"import file system":                                                           "in-memory fs.FS whose Open is a scheduling point",
 	"caller tasks":                                                                 "goroutines released one at a time by the simulator at stage boundaries (start, import, compile, layout per nested graph, render per board) and at about 12 600 statement-level scheduling points written into d2's pipeline packages by a source overlay (no change to /repo)",
 	"map iteration / select":                                                       "runtime seam: a function of the tape, re-derived at every release",
-	"wall clock (time.Now) of a task":                                             "simulated: advances by a tape-chosen rate (50 ns ... 2 ms) per scheduling point, drawn anew for every slice",
+	"wall clock (time.Now) of a task":                                              "simulated: advances by a tape-chosen rate (50 ns ... 2 ms) per scheduling point, drawn anew for every slice",
 	"reference":                                                                    "separate OS process, different seed, reversed order, no neighbours",
 }
 
